@@ -5,8 +5,10 @@
 package drv
 
 import (
+	"bytes"
 	"fmt"
 	"os"
+	osexec "os/exec"
 	"runtime"
 	"strings"
 	"sync"
@@ -480,7 +482,8 @@ func parkedShutdown(impl int64) Sx {
 // (panics stuck sizeBad cancelBad shutdownReturned): panics = API calls that panicked,
 // stuck = 1 if a call did not come back within 5 s after Shutdown had returned (callers
 // blocked in a send whose receiver is gone, or the mutex left locked by a panic),
-// sizeBad = 1 if Size() differs from the number of ids IsScheduled() reports,
+// sizeBad = 1 if Size() differs from the number of ids IsScheduled() reports or is not 0
+// (after Shutdown nothing will ever be delivered: no timer may be reported as scheduled),
 // cancelBad = number of ids whose Cancel() answer differs from IsScheduled() just before.
 func ShutdownCase(impl int64, variant int64) Sx {
 	sched.VerifNow = nil
@@ -572,12 +575,17 @@ func ShutdownCase(impl int64, variant int64) Sx {
 		n := 20000
 		var k int64
 		for c := 0; c < blockedClients; c++ {
+			every := c%2 == 1 // half of the callers start repeating timers (far from due)
 			client(func(i int) {
 				if atomic.AddInt64(&k, 1) > int64(n) {
 					time.Sleep(time.Millisecond)
 					return
 				}
-				note(t.RunAfter(0, &Job{Ord: 3}))
+				if every {
+					note(t.RunEvery(1000000, &Job{Ord: 8}))
+				} else {
+					note(t.RunAfter(0, &Job{Ord: 3}))
+				}
 			})
 		}
 		waitParked()
@@ -668,8 +676,8 @@ func ShutdownCase(impl int64, variant int64) Sx {
 		id := id
 		nSched += call(func() int64 { return b2i(t.IsScheduled(id)) })
 	}
-	if size != nSched {
-		sizeBad = 1
+	if size != nSched || size != 0 {
+		sizeBad = 1 // (a scheduler that is shut down has no pending timers)
 	}
 	for _, id := range uniq {
 		id := id
@@ -831,17 +839,71 @@ func ParkedOnOutput(impl int64, variant int64) Sx {
 	return Ints(parked, cancelResult, cancelReturned, pAfter, others, expected, size)
 }
 
+// runReal runs one of the scenarios with the scheduler's REAL worker goroutine.
+func runReal(in Sx) Sx {
+	impl := in.At(0).Int64()
+	switch impl {
+	case ImplLiveWheel, ImplLiveHeap:
+		return Live(impl, int(in.At(1).Int64()))
+	case ImplParkWheel, ImplParkHeap:
+		return ParkedOnOutput(impl, in.At(1).Int64())
+	default:
+		return ShutdownCase(impl, in.At(1).Int64())
+	}
+}
+
+// ChildEnv: when set, the harness binary runs the one real-worker scenario given in the
+// variable, prints its observation and exits (see ChildMain / runIsolated).
+const ChildEnv = "VERIF_TIMER_CHILD"
+
+// ChildMain must be called first thing in main().
+func ChildMain() {
+	v := os.Getenv(ChildEnv)
+	if v == "" {
+		return
+	}
+	in, err := Parse(v)
+	if err != nil {
+		os.Exit(4)
+	}
+	fmt.Println("OBS " + runReal(in).String())
+	os.Exit(0)
+}
+
+// runIsolated runs a real-worker scenario in a child process of the same binary: a panic
+// on the scheduler's own goroutine cannot be recovered and would take the whole harness
+// down (no case file, no replay).  A child that dies from a panic yields the observation
+// (6) = "the scheduler panicked" for this case; the harness goes on.
+func runIsolated(in Sx) Sx {
+	exe, err := os.Executable()
+	if err != nil {
+		return runReal(in)
+	}
+	cmd := osexec.Command(exe)
+	cmd.Env = append(os.Environ(), ChildEnv+"="+in.String())
+	var stderr bytes.Buffer
+	cmd.Stderr = &stderr
+	outb, err := cmd.Output()
+	atomic.AddInt64(&progress, 1)
+	for _, line := range strings.Split(string(outb), "\n") {
+		if strings.HasPrefix(line, "OBS ") {
+			if o, perr := Parse(strings.TrimPrefix(line, "OBS ")); perr == nil {
+				return o
+			}
+		}
+	}
+	if strings.Contains(stderr.String(), "panic:") || strings.Contains(stderr.String(), "fatal error:") {
+		return Ints(6)
+	}
+	_ = err
+	return List() // no observation (the child was killed): a bad case, not a verdict
+}
+
 // Run executes the history of `in` = (impl cur0 tt0 (op ...)) and returns (obs ...).
 func Run(in Sx) Sx {
 	impl := in.At(0).Int64()
-	if impl == ImplLiveWheel || impl == ImplLiveHeap {
-		return Live(impl, int(in.At(1).Int64()))
-	}
-	if impl == ImplParkWheel || impl == ImplParkHeap {
-		return ParkedOnOutput(impl, in.At(1).Int64())
-	}
-	if impl == ImplShutWheel || impl == ImplShutHeap {
-		return ShutdownCase(impl, in.At(1).Int64())
+	if impl >= ImplLiveWheel && impl <= ImplShutHeap {
+		return runIsolated(in)
 	}
 	r := newStepper(in)
 	for r.step() {
